@@ -322,6 +322,7 @@ contract(SOL + "check_groundwater_table.py", "check_groundwater_table",
                  ("range", "0 <= compi and compi <= n - 1"),
                  ("set", "forall(j, 0, ii, thfcAdj[j] == prof.th_fc[j])"),
                  ("bounds", _CGT_B.format(lo="compi + 1")),
+                 ("far", "implies(%s, compi == n - 1)" % _FAR.replace("z_gw", "NewCond_zGW")),
              ]),
          },
          assigns=[],
@@ -375,13 +376,18 @@ contract(SOL + "evap_layer_water_content.py", "evap_layer_water_content",
              ("C03.evap_layer_order", "0 <= Wevap_Dry and Wevap_Dry < Wevap_Wp and Wevap_Wp < Wevap_Fc and Wevap_Fc < Wevap_Sat"),
              ("C03.evap_layer_act", "Wevap_Dry <= Wevap_Act"),
              ("C03.evap_layer_rew_room", "Wevap_Fc - Wevap_Dry >= " + _REWLB.format(z="InitCond_EvapZ")),
+             # the totals are the weighted spec sums over the evaporation layer (ghost weights evw[j] = factor_j * dz[j])
+             ("C03.evap_layer_act_sum", "Wevap_Act == wsum(evw(prof, InitCond_EvapZ), InitCond_th, count_lt(prof.dzsum, InitCond_EvapZ) + 1)"),
+             ("C03.evap_layer_dry_sum", "Wevap_Dry == wsum(evw(prof, InitCond_EvapZ), prof.th_dry, count_lt(prof.dzsum, InitCond_EvapZ) + 1)"),
          ],
          loops={"L1": dict(invariant=[
              ("order", "0 <= Wevap_Dry and Wevap_Dry <= Wevap_Wp and Wevap_Wp <= Wevap_Fc and Wevap_Fc <= Wevap_Sat"),
              ("strict", "implies(ii >= 1, Wevap_Dry < Wevap_Wp and Wevap_Wp < Wevap_Fc and Wevap_Fc < Wevap_Sat)"),
              ("act", "Wevap_Dry <= Wevap_Act"),
              ("room", "implies(ii >= 1, Wevap_Fc - Wevap_Dry >= " + _REWLB.format(z="InitCond_EvapZ") + ")"),
-             ("cs", "1 <= comp_sto and comp_sto <= n"),
+             ("cs", "1 <= comp_sto and comp_sto <= n and comp_sto == count_lt(prof.dzsum, InitCond_EvapZ) + 1"),
+             ("act_sum", "Wevap_Act == wsum(evw(prof, InitCond_EvapZ), InitCond_th, ii)"),
+             ("dry_sum", "Wevap_Dry == wsum(evw(prof, InitCond_EvapZ), prof.th_dry, ii)"),
          ])},
          assigns=[],
          props=("C03", "C12", "C16"))
@@ -398,6 +404,8 @@ _SE_MASS = "wsum(prof.dz, NewCond_th, n) + EsAct + NewCond_SurfaceStorage == old
 _SE_COMMON = [
     ("budget", "EsAct + ToExtract == EsPot"),
     ("lower", "forall(j, 0, n, prof.th_dry[j] <= NewCond_th[j])"),
+    ("upper", "forall(j, 0, n, NewCond_th[j] <= old(NewCond_th[j]))"),
+    ("esact", "EsAct >= 0"),
     ("evapz", "Soil_EvapZmin <= NewCond_EvapZ and NewCond_EvapZ <= Soil_EvapZmax + 0.001"),
     ("ws2", "NewCond_Wstage2 >= 0"),
 ]
@@ -408,7 +416,9 @@ contract(SOL + "soil_evaporation.py", "soil_evaporation",
              "ClockStruct_EvapTimeSteps >= 1",
              "0 < Soil_EvapZmin and Soil_EvapZmin <= Soil_EvapZmax and Soil_EvapZmax + 0.001 <= prof.dzsum[n-2]",
              "0 <= Soil_REW and Soil_REW < " + _REWLB.format(z="Soil_EvapZmin"),
-             "Soil_Kex >= 0", "0 <= Soil_fwcc and Soil_fwcc <= 100", "Soil_fevap != 0",
+             "Soil_Kex >= 0", "0 <= Soil_fwcc and Soil_fwcc <= 100", "Soil_fevap > 0",
+             # one stage-2 sub-step never asks for more than the evaporation layer holds above air-dry (valid_soil; checked for the built-in soils)
+             "Soil_Kex * et0 <= ClockStruct_EvapTimeSteps * (" + _REWLB.format(z="Soil_EvapZmin") + " - Soil_REW)",
              "0 <= NewCond_CCxW and NewCond_CCxW <= 1", "0 <= NewCond_CCadj and NewCond_CCadj <= 1", "0 <= NewCond_CCxAct and NewCond_CCxAct <= 1",
              "0 <= NewCond_CC", "et0 >= 0",
              "0 <= FieldMngt_fMulch and FieldMngt_fMulch <= 1", "0 <= FieldMngt_MulchPct and FieldMngt_MulchPct <= 100",
@@ -424,6 +434,8 @@ contract(SOL + "soil_evaporation.py", "soil_evaporation",
              ("C04.evap_act_le_pot", "EsAct <= EsPot"),
              ("C01.evap_mass", "wsum(prof.dz, th_out, n) + SS + EsAct == old(wsum(prof.dz, NewCond_th, n)) + NewCond_SurfaceStorage"),
              ("C03.evap_lower", "forall(j, 0, n, prof.th_dry[j] <= th_out[j])"),
+             ("C03.evap_upper", "forall(j, 0, n, th_out[j] <= old(NewCond_th[j]))"),
+             ("C04.evap_act_nonneg", "EsAct >= 0"),
              ("C03.evap_ponding", "0 <= SS and SS <= NewCond_SurfaceStorage"),
              ("C12.evap_in_place", "same(th_out, NewCond_th)"),
              ("C03.evap_state", "Soil_EvapZmin <= EvapZ and EvapZ <= Soil_EvapZmax + 0.001 and Wstage2 >= 0 and Wsurf >= 0"),
@@ -437,18 +449,31 @@ contract(SOL + "soil_evaporation.py", "soil_evaporation",
              ], decreases="comp_sto - comp"),
              "L2": dict(invariant=_SE_COMMON + [
                  ("remaining", "ToExtract >= Edt * (ClockStruct_EvapTimeSteps - jj) and Edt >= 0 and EsPot >= 0"),
+                 ("edt", "Edt <= " + _REWLB.format(z="Soil_EvapZmin") + " - Soil_REW"),
                  ("mass", _SE_MASS.format(e="entry_L2_EsAct")),
              ]),
              "L2.1": dict(invariant=_SE_COMMON + [
-                 ("wrel", "Wupper - Wlower > 0 and Wrel >= 0"),
+                 ("wrel", "Wupper - Wlower > 0 and Wrel >= 0 and Wupper - Wlower >= Edt and Wlower == Wevap_Dry and Wrel == (Wevap_Act - Wlower) / (Wupper - Wlower)"),
+                 ("sums", "Wevap_Act == wsum(evw(prof, NewCond_EvapZ), NewCond_th, count_lt(prof.dzsum, NewCond_EvapZ) + 1) and "
+                          "Wevap_Dry == wsum(evw(prof, NewCond_EvapZ), prof.th_dry, count_lt(prof.dzsum, NewCond_EvapZ) + 1)"),
+                 ("edt", "Edt <= " + _REWLB.format(z="Soil_EvapZmin") + " - Soil_REW"),
                  ("keep", "ToExtract >= Edt * (ClockStruct_EvapTimeSteps - jj) and Edt >= 0 and EsPot >= 0 and 0 <= jj and jj < ClockStruct_EvapTimeSteps"),
                  ("mass", _SE_MASS.format(e="entry_L2_EsAct")),
              ], decreases="Soil_EvapZmax - NewCond_EvapZ", decreases_step=0.001),
              "L2.2": dict(invariant=_SE_COMMON + [
-                 ("range", "-1 <= comp and comp <= comp_sto and comp_sto <= n - 1"),
+                 ("range", "-1 <= comp and comp <= comp_sto - 1 and comp_sto <= n - 1 and comp_sto == count_lt(prof.dzsum, NewCond_EvapZ) + 1"),
+                 ("enough", "ToExtractStg2 <= max(0, %s - %s)" % ("(wsum(evw(prof, NewCond_EvapZ), NewCond_th, comp_sto) - wsum(evw(prof, NewCond_EvapZ), prof.th_dry, comp_sto))", "(wsum(evw(prof, NewCond_EvapZ), NewCond_th, comp + 1) - wsum(evw(prof, NewCond_EvapZ), prof.th_dry, comp + 1))")),
                  ("stg2", "ToExtractStg2 >= 0 and ToExtract >= Edt * (ClockStruct_EvapTimeSteps - jj - 1) + ToExtractStg2 and Edt >= 0 and EsPot >= 0 and 0 <= jj and jj < ClockStruct_EvapTimeSteps"),
                  ("mass", _SE_MASS.format(e="entry_L2_EsAct")),
-             ], decreases="comp_sto - comp"),
+             ], decreases="comp_sto - comp",
+                 # the sub-step demand Kr*Edt never exceeds what the evaporation layer holds above air-dry:
+                 # Kr <= Wrel by convexity of exp (chord), Edt <= Wupper - Wlower by the soil precondition
+                 init_asserts=["Kr >= 0 and Kr <= 1", "ToExtractStg2 == Kr * Edt", "ToExtractStg2 <= Edt",
+                               "Wrel * (Wupper - Wlower) == Wevap_Act - Wlower",
+                               "implies(Wrel <= 1, Kr <= Wrel)",
+                               "implies(Wrel <= 1, ToExtractStg2 <= Wrel * (Wupper - Wlower))",
+                               "implies(Wrel > 1, ToExtractStg2 <= Wrel * (Wupper - Wlower))",
+                               "ToExtractStg2 <= Wevap_Act - Wevap_Dry"]),
          },
          assigns=["NewCond_th[*]"],
          options=dict(merge_limit=None, reads_only_if={"FieldMngt_fMulch": "FieldMngt_Mulches", "FieldMngt_MulchPct": "FieldMngt_Mulches",
